@@ -8,7 +8,8 @@
    fixes/C19-rollout-depth.patch), [rl_orig] = maxDepth_ - depth + 1 (/repo today).  The tree
    theorems hold for every [rl]; the horizon theorem needs [rl_fixed] and is refuted for [rl_orig]. *)
 From Coq Require Import QArith List Arith Lia.
-From AIT Require Import C19.Model C19.Spec C19.Proofs C19.ProofsMCTS C19.ProofsPOMCP C19.ProofsTop C19.ProofsRange C19.ProofsRange2 C19.ProofsParticles.
+From AIT Require Import C19.Model C19.Spec C19.Proofs C19.ProofsMCTS C19.ProofsPOMCP C19.ProofsTop C19.ProofsRange C19.ProofsRange2 C19.ProofsParticles C19.ProofsParticles2
+  C19.ModelR C19.SpecR C19.ProofsR C19.ProofsR2 C19.ProofsR3 C19.ProofsR4.
 Import ListNotations.
 Local Open Scope nat_scope.
 
@@ -198,6 +199,99 @@ Theorem particles_consistent_pomcp : forall A term disc rl iters ps0 h0 tr0 ops,
 Proof. exact pomcp_particles_lemma. Qed.
 Print Assumptions particles_consistent_pomcp.
 
+(* FULL statement of particle consistency.  On a coherent log (every call made inside the tree was
+   logged with the state the planner was carrying, every simulation starts from a root particle:
+   [pomcp_coh_session], a boolean function of (history, logs) that the driver evaluates on every real
+   log) every particle p of the node reached from its parent by (action i, observation o) is the next
+   state of a logged call sampleSOR(q, i) = (p, o, _) with q a particle of the PARENT's belief; by
+   induction along the path every particle is reachable from a root particle under exactly the node's
+   (action, observation) history.  What is not proved: that the initial particles of a call from
+   scratch lie in the support of the given belief (makeSampledBelief / sampleProbability are inputs of
+   the machine; checked by the oracle), and nothing is claimed about an incoherent log. *)
+Theorem particles_consistent_full_pomcp : forall A term disc rl iters ps0 h0 tr0 ops,
+  0 < A -> trace_ok A tr0 -> Forall (fun p => trace_ok A (snd p)) ops ->
+  pomcp_coh_session A term disc rl iters node0 ((PFresh ps0 h0, tr0) :: ops) = true ->
+  particles_full (tr0 ++ concat (map snd ops))
+                 (pomcp_session A term disc rl iters node0 ((PFresh ps0 h0, tr0) :: ops)).
+Proof. exact pomcp_particles_full_lemma. Qed.
+Print Assumptions particles_consistent_full_pomcp.
+
+(* ------------------------------------------------------------------ rPOMCP ---------------- *)
+(* Both UseEntropy variants; [plogp] (p*log p of the entropy variant) is an arbitrary function.
+   rPOMCP's counting rule, exactly as the code has it: a belief node is visited either by simulate
+   (b.N++ and one aNode.N += 1) or as a leaf (N += 1 only), and every aNode.N += 1 goes with exactly
+   one visit of one observation child.  [rleaf] is the ghost count of leaf visits. *)
+Theorem tree_counts_invariant_rpomcp : forall A term disc k entropy plogp iters sb0 h0 tr0 ops,
+  0 < A -> trace_ok A tr0 -> Forall (fun p => trace_ok A (snd p)) ops ->
+  let g := r_session A term disc k entropy plogp iters rnode0 ((RFresh sb0 h0, tr0) :: ops) in
+  rcounts_ok g /\ rmean_ok g /\ rshape_ok A g /\ rpart_ok g.
+Proof. exact r_session_lemma. Qed.
+Print Assumptions tree_counts_invariant_rpomcp.
+
+(* the root rule: after a call from scratch the root was never a leaf, so N = sum of its actions' N *)
+Theorem root_counts_fresh_rpomcp : forall A term disc k entropy plogp iters sb h tr sb' g' a tr' sts,
+  0 < A -> trace_ok A tr ->
+  r_fresh A term disc k entropy plogp iters sb h tr = (sb', (g', a, tr', sts)) ->
+  rN g' = sumn (map raN (racts g')) /\ sb' = sb.
+Proof. exact r_fresh_root_lemma. Qed.
+Print Assumptions root_counts_fresh_rpomcp.
+
+(* no simulation makes more than `horizon` model calls (no hypothesis at all) *)
+Theorem depth_le_horizon_rpomcp : forall A term disc k entropy plogp iters g op tr sb' g' a tr' sts,
+  r_op A term disc k entropy plogp iters g op tr = (sb', (g', a, tr', sts)) ->
+  Forall (fun st => st <= rop_h op) sts.
+Proof. exact r_depth_lemma. Qed.
+Print Assumptions depth_le_horizon_rpomcp.
+
+(* one call keeps the tree consistent, returns an existing action, keeps A action nodes at the root *)
+Theorem action_valid_rpomcp : forall A term disc k entropy plogp iters g op tr sb' g' a tr' sts,
+  0 < A -> trace_ok A tr -> rcounts_ok g /\ rmean_ok g /\ rshape_ok A g /\ rpart_ok g ->
+  r_op A term disc k entropy plogp iters g op tr = (sb', (g', a, tr', sts)) ->
+  a < A /\ length (racts g') = A /\ (rcounts_ok g' /\ rmean_ok g' /\ rshape_ok A g' /\ rpart_ok g').
+Proof. exact r_action_lemma. Qed.
+Print Assumptions action_valid_rpomcp.
+
+(* sampleAction(a, o, h): continues from exactly the stored node — same N, V, children (resized to A),
+   its tracking belief (every entry, also zero counts) becoming the sampling belief and being cleared —
+   or equals a call from scratch when o was never observed under a. *)
+Theorem promotion_keeps_subtree_rpomcp : forall A term disc k entropy plogp iters g a o h sb tr,
+  (forall c, rfind_kid o (rkids (nth a (racts g) ract0)) = Some c -> rtrack c <> [] ->
+     In (o, c) (rkids (nth a (racts g) ract0)) /\
+     r_advance A term disc k entropy plogp iters g a o h sb tr =
+       (map (fun p => (fst p, fst (snd p))) (rtrack c),
+        r_runSimulation A term disc k entropy plogp iters h (snd (r_promote A c)) tr) /\
+     rN (snd (r_promote A c)) = rN c /\ rtrack (snd (r_promote A c)) = [] /\
+     racts (snd (r_promote A c)) = rresize A (racts c)) /\
+  (rfind_kid o (rkids (nth a (racts g) ract0)) = None ->
+     r_advance A term disc k entropy plogp iters g a o h sb tr = r_fresh A term disc k entropy plogp iters sb h tr).
+Proof. exact r_promotion_lemma. Qed.
+Print Assumptions promotion_keeps_subtree_rpomcp.
+
+(* particles: after any history, every state with a POSITIVE count in the tracking belief of the node
+   reached by (action i, observation o) was the next state of a logged call with that action and
+   observation … *)
+Theorem particles_consistent_rpomcp : forall A term disc k entropy plogp iters sb0 h0 tr0 ops,
+  0 < A -> trace_ok A tr0 -> Forall (fun p => trace_ok A (snd p)) ops ->
+  rsampled_ok (tr0 ++ concat (map snd ops))
+              (r_session A term disc k entropy plogp iters rnode0 ((RFresh sb0 h0, tr0) :: ops)).
+Proof. exact r_particles_lemma. Qed.
+Print Assumptions particles_consistent_rpomcp.
+
+(* … and the sampling belief a promoted root starts with has positive counts only on such states
+   (zero-count entries — the max-of-belief variant's trackBelief_[maxS_] phantom — may be present:
+   sampleBelief() must never return them). *)
+Theorem promoted_belief_consistent_rpomcp : forall A term disc k entropy plogp pool iters g op tr sb' g' a tr' sts,
+  0 < A -> trace_ok A tr -> incl tr pool ->
+  rcounts_ok g /\ rmean_ok g /\ rshape_ok A g /\ rpart_ok g -> rsampled_ok pool g ->
+  r_op A term disc k entropy plogp iters g op tr = (sb', (g', a, tr', sts)) ->
+  rsampled_ok pool g' /\
+  match op with
+  | RFresh sb _ => sb' = sb
+  | RAdvance a0 o _ sb => sb' = sb \/ (forall s cnt, In (s, cnt) sb' -> 0 < cnt -> sampled_by pool a0 o s)
+  end.
+Proof. exact r_promoted_belief_lemma. Qed.
+Print Assumptions promoted_belief_consistent_rpomcp.
+
 (* the boolean checkers the driver runs on the implementation's outputs are sound *)
 Theorem counts_checker_sound : forall n, counts_okb n = true -> counts_ok n.
 Proof. exact counts_okb_sound. Qed.
@@ -239,3 +333,20 @@ Proof.
   split; [apply (good_split 2 node0 (good_node0 2))|].
   constructor; [constructor | intros a k c []].
 Qed.
+
+(* rPOMCP: a history that revisits an observation node, reaches the horizon and promotes *)
+Example ex_rpomcp_history :
+  let e s a s1 o := Ev s a s1 o 0%Q in
+  let tr0 := [e 1 0 2 0; e 1 0 2 0; e 2 1 1 1; e 1 1 1 1; e 1 0 2 0; e 2 1 1 1] in
+  let tr1 := [e 2 0 1 0; e 2 1 1 1; e 2 0 1 0; e 2 0 2 1] in
+  let g := r_session 2 (fun s => Nat.eqb s 3) (1#2) 2 false (fun _ _ => 0%Q) 4 rnode0
+                     [(RFresh [(1, 3)] 2, tr0); (RAdvance 0 0 1 [], tr1)] in
+  trace_ok 2 tr0 /\ trace_ok 2 tr1 /\ rN g = 7.
+Proof. cbv zeta. split; [repeat constructor|]. split; [repeat constructor|]. vm_compute. reflexivity. Qed.
+
+Example ex_pomcp_coherent :
+  let e s a s1 o r := Ev s a s1 o r in
+  let tr0 := [e 0 0 1 1 1%Q; e 1 1 0 0 2%Q; e 0 0 1 1 (-1)%Q; e 1 0 0 1 1%Q; e 0 0 0 1 1%Q; e 0 1 1 0 0%Q] in
+  trace_ok 2 tr0 /\
+  pomcp_coh_session 2 (fun s => Nat.eqb s 3) (1#2) rl_fixed 2 node0 [(PFresh [0; 1] 3, tr0)] = true.
+Proof. cbv zeta. split; [|vm_compute; reflexivity]. unfold trace_ok. repeat (apply Forall_cons; [cbn; lia|]). apply Forall_nil. Qed.
